@@ -356,7 +356,18 @@ func VerifC15_RequestEncoder() {
 func VerifC15_PresetContentType() {
 	var preset string
 	withParams, hasPlus := false, false
-	switch nondetChoice("preset", 6) {
+	xmlSuffix := false
+	switch nondetChoice("preset", 7) {
+	case 6:
+		// a structured-syntax suffix spelled in any letter case
+		suf := nondetString("suffix", 3)
+		verifAssume(suf[0]|0x20 == 'x' && suf[1]|0x20 == 'm' && suf[2]|0x20 == 'l')
+		preset = "application/vnd.z+" + suf
+		if nondetBool("with-charset") {
+			preset += "; charset=utf-8"
+			withParams = true
+		}
+		hasPlus, xmlSuffix = true, true
 	case 5:
 		preset = "text/plain; profile=" + nondetString("profile", 2)
 		verifAssume(visible(preset))
@@ -399,6 +410,10 @@ func VerifC15_PresetContentType() {
 		verifAssert("preset:encoder-matches-rewritten-header-with-parameters", ek == dk)
 	default:
 		verifAssert("preset:encoder-matches-rewritten-header", ek == dk)
+	}
+	if !changed && xmlSuffix && ek == kXML {
+		// media types are case-insensitive: the header the caller left announces XML
+		verifAssert("preset:suffix-read-case-insensitively", dk == kXML)
 	}
 	if !changed && !hasPlus && (ek == kJSON || ek == kXML) {
 		verifAssert("preset:suffix-appended-for-json-xml", false)
